@@ -22,6 +22,9 @@ NOT_APPLICABLE = {}
 MC = "bounded-exhaustive exploration of the real library code (explicit enumeration of a finite input/history/schedule space, exact reference oracle)"
 
 
+_extra = {}
+
+
 def _load_fragments():
     import glob, os
     here = os.path.dirname(os.path.abspath(__file__))
@@ -36,6 +39,14 @@ def _load_fragments():
             PROPS[k] = v
         NOT_APPLICABLE.update(ns.get("NOT_APPLICABLE", {}))
         HOOK_COMMITS.extend(ns.get("HOOK_COMMITS", []))
+        for k, v in ns.get("EXTRA_RUNS", {}).items():
+            _extra.setdefault(k, {})
+            for tier, runs in v.items():
+                _extra[k].setdefault(tier, []).extend(runs)
+    # runs that one fragment contributes to a property defined in another fragment
+    for k, v in _extra.items():
+        for tier, runs in v.items():
+            PROPS[k]["runs"][tier] = list(PROPS[k]["runs"][tier]) + runs
 
 
 _load_fragments()
